@@ -317,7 +317,7 @@ def validate(schema):
 def helper_defs():
     """Helper types shared by every exhaustive-sequence schema."""
     return [
-        Enum('En', [('En_A', 1), ('En_B', 2), ('En_C', 0x10203)]),
+        Enum('En', [('En_A', 1), ('En_B', 2), ('En_C', 0x10203), ('En_B2', 2)]),
         Struct('Fx2', [Member('a', 'u8'), Member('b', 'u16')]),                       # size 4 align 2
         Struct('Fx8', [Member('a', 'u64'), Member('b', 'u8')]),                       # size 16 align 8
         Struct('FxO', [Member('a', 'u8', OPTIONAL), Member('b', 'u8')]),              # size 8 align 4
